@@ -82,6 +82,14 @@ def zippy_dump(desc, wd, name):
     return json.load(open(outp)), jf
 
 
+def has_empty_prefix_fix():
+    """The empty-output arm of zch_press_key starts zchd_prior_activation_output_count anew for a non-follow-up chord
+    (proposed_fixes/c20_empty_prefix_chord.diff): detected in the source text of the tree under test so that L1 follows it."""
+    import re
+    src = open(os.path.join(REPO, "src", "kanata", "output_logic", "zippychord.rs")).read()
+    return re.search(r"if\s*!is_prioritized_activation\s*\{[^}]*zchd_prior_activation_output_count\s*=\s*0\s*;", src) is not None
+
+
 def zippy_constants(dump, since_cap=12, bug="none"):
     """TLA+ constant definitions; also cross-checks that the 'equals / is a subset of a key' reading of
     parser/src/subset.rs reproduces the real answer for every subset of the dictionary keys."""
@@ -107,7 +115,8 @@ def zippy_constants(dump, since_cap=12, bug="none"):
     opts = {"deadline": dump["deadline"], "wait_enable": dump["wait_enable"], "smart_space": dump["smart_space"],
             "punct": "@PUNCT@", "top": dump["top"],
             "lsft": C("lsft"), "rsft": C("rsft"), "ralt": C("ralt"), "bspc": C("bspc"), "spc": C("spc"),
-            "ignored": set(C(k) for k in IGNORED), "force_reset": 10000, "since_cap": since_cap, "hold_cap": 2}
+            "ignored": set(C(k) for k in IGNORED), "force_reset": 10000, "since_cap": since_cap, "hold_cap": 2,
+            "old_empty_prefix": not has_empty_prefix_fix()}
     punct = "{" + ", ".join(tla_val(x) for x in dump["punct"]) + "}"
     return "\n".join([
         "ZMapsDef == " + tla_val(maps),
@@ -469,10 +478,15 @@ def family(tier):
         ("sft", _desc([(["ab"], "Hi"), (["ab", "a"], "him")], "ab", ["rsft"]), dict(hold=3)),
         # smart space full; a follow-up chord started by a punctuation key (the space is erased, then the antecedent)
         ("ssp", _desc([(["ab"], "hi"), (["ab", ["comm"]], "ho")], ["a", "b", "comm"], ss="full"), dict(hold=3)),
+        # a line whose first chord has no line of its own (empty-output prefix chord) next to a chord with follow-ups
         # smart-space-punctuation as written: c is punctuation, the default comma is not
         ("pct", _desc([(["ab"], "hi")], ["a", "b", "c", "comm"], ss="full", punct=["c"]), dict(hold=3)),
         ("spc", _desc([([" a"], "and"), ([" ab"], "about")], ["spc", "a", "b"], ss="add-space-only"), dict(hold=3)),
     ]
+    if has_empty_prefix_fix():
+        # explored only on a tree with the repair: before it the stale output count grows without bound (every press of
+        # the prefix key adds to it), i.e. the state space of the faithful L1 is infinite
+        q.append(("epf", _desc([(["ab"], "day"), (["ab", "a"], "do"), (["c", "ab"], "rec")], "abc"), dict(hold=3)))
     if tier == "quick":
         return q
     t = [
@@ -552,9 +566,8 @@ def run(tier, seed):
             for D, W in ((1000, 60), (200, 700)):
                 d2 = dict(desc, D=D, W=W)
                 groups["attempts"].append(job(d2, "t:%s_D%d" % (name, D), deadline_probes(d2) + chord_attempts(d2, rng, limit=40 if quick else 300)))
-    # a line whose first chord has no line of its own (empty-output prefix chord) next to a chord with follow-ups
     epf = _desc([(["ab"], "day"), (["ab", "a"], "do"), (["c", "ab"], "rec"), (["c", "b"], "re")], "abc", D=3, W=2)
-    groups["attempts"].append(job(epf, "a:epf", entry_pairs(epf) + chord_attempts(epf, rng, limit=60 if quick else 600)))
+    groups["attempts"].append(job(epf, "a:epf2", entry_pairs(epf) + chord_attempts(epf, rng, limit=60 if quick else 600)))
     for i in range(10 if quick else 100):
         desc = rand_dict(rng, tier)
         groups["attempts"].append(job(desc, "a:rd%d" % i, entry_pairs(desc) + chord_attempts(desc, rng, limit=120 if quick else 500)))
